@@ -28,6 +28,10 @@ type crCase struct {
 	// PreCode completely, and is then Reset and re-configured (reuse of the encoder instance)
 	PreCode int `json:"preCode,omitempty"`
 	PreLen  int `json:"preLen,omitempty"`
+	// PreCalls > 0: the earlier stream is abandoned after that many Read calls with PreBuf-byte buffers
+	// (compressed bytes are then still parked in the overflow buffer) instead of being read to the end
+	PreCalls int `json:"preCalls,omitempty"`
+	PreBuf   int `json:"preBuf,omitempty"`
 }
 
 // failingSource delivers data[:failPos] (with fragmentation) and then fails.
@@ -77,6 +81,7 @@ func crRun(args []string) error {
 			calls    []rec
 			out      []byte
 			panicked string
+			reset    rec
 		}
 		done := make(chan res, 1)
 		go func() {
@@ -93,8 +98,20 @@ func crRun(args []string) error {
 				pre := &failingSource{fragReader: fragReader{data: bytes.Repeat([]byte("prelude "), c.PreLen/8+1)[:c.PreLen]}}
 				zr = lz4.NewCompressingReader(pre)
 				_ = zr.Apply(lz4.BlockSizeOption(blockSizeOf(c.PreCode)))
-				_, _ = io.Copy(io.Discard, zr)
+				if c.PreCalls > 0 {
+					pb := make([]byte, c.PreBuf)
+					for k := 0; k < c.PreCalls; k++ {
+						if _, err := zr.Read(pb); err != nil {
+							break
+						}
+					}
+				} else {
+					_, _ = io.Copy(io.Discard, zr)
+				}
+				_, _, ovLen0, ovPos0 := zr.VerifState()
 				zr.Reset(src)
+				st, _, ovLen, ovPos := zr.VerifState()
+				r.reset = rec{"st": names[st], "ovLen": ovLen, "ovPos": ovPos, "parked": ovLen0 - ovPos0}
 			}
 			var opts []lz4.Option
 			if c.Opts.Code != 0 {
@@ -141,6 +158,9 @@ func crRun(args []string) error {
 		case r := <-done:
 			p := ref.ParseFrame(r.out, true)
 			e["calls"], e["panicked"], e["hung"] = r.calls, r.panicked, false
+			if r.reset != nil {
+				e["reset"] = r.reset
+			}
 			e["outLen"] = len(r.out)
 			e["ref"] = refSummary(p, len(r.out))
 			e["same"] = bytes.Equal(p.Content, input)
